@@ -312,7 +312,8 @@ class World:
         self.method_stubs = {}  # (real class, name) -> handler(interp, self, args, kwargs, node)
         self.attr_stubs = {}  # (real class, name) -> handler(interp, self)
         self.shapes = {}  # real class -> {field: T}
-        self.contracts = {}  # fq -> Contract
+        self.contracts = {}  # key (fq or fq#instance) -> Contract: everything that is verified
+        self.call_contracts = {}  # fq -> Contract used at call sites (summary of the callee)
         self.modular = set()  # fq names whose calls are replaced by their contract
         self.eq_stubs = {}  # real class -> handler(interp, a, b) -> formula
         self.ignore_calls_on = []  # real objects whose method calls are dropped (loggers)
@@ -444,6 +445,7 @@ class Interp:
         self.shared_objs = {}  # id(real shared default object) -> SObj
         self.current_line = None
         self.verifying = None  # FuncInfo under verification (calls to it are never replaced by contract at depth 0)
+        self.verifying_contract = None
         self.loop_specs = {}
         self.stats = {"calls_inlined": set(), "calls_by_contract": set(), "stubs_used": set()}
 
@@ -733,11 +735,20 @@ class Interp:
 
     def call_repo(self, fi: FuncInfo, args, kwargs, node):
         w = self.world
-        c = w.contracts.get(fi.fq)
-        if c is not None and fi.fq in w.modular and not (self.verifying is fi and self.depth == 0):
+        c = w.call_contracts.get(fi.fq)
+        vc = self.verifying_contract
+        by_contract = c is not None and fi.fq in w.modular
+        if c is not None and vc is not None:
+            if fi.qualname in vc.contract_callees or fi.fq in vc.contract_callees:
+                by_contract = True
+            elif fi.qualname in vc.inline_callees or fi.fq in vc.inline_callees:
+                by_contract = False
+        if by_contract and not (self.verifying is fi and self.depth == 0):
             self.stats["calls_by_contract"].add(fi.fq)
             return c.apply_at_call(self, fi, args, kwargs, node)
         self.stats["calls_inlined"].add(fi.fq)
+        if c is not None and self.depth > 0 and c.check_pre_when_inlined and not c.guard_requires:
+            c.oblige_pre_at_call(self, fi, args, kwargs, node)
         return self.call_function(fi, args, kwargs)
 
     # ------------------------------------------------------------------ attributes
@@ -1550,9 +1561,15 @@ class Interp:
         parts = loc.split(".")
         obj = roots[parts[0]]
         for p in parts[1:-1]:
-            obj = obj.f[p]
             if isinstance(obj, SOpt):
-                raise CheckerError(f"location {loc} passes through an unresolved optional")
+                obj = obj.val  # the location only exists when the optional is present
+            if obj is None:
+                raise CheckerError(f"location {loc} passes through None")
+            obj = obj.f[p]
+        if isinstance(obj, SOpt):
+            obj = obj.val
+        if obj is None:
+            raise CheckerError(f"location {loc} passes through None")
         return obj, parts[-1]
 
     def check_loop_frame(self, head_snapshot, fr, spec, name, line):
